@@ -157,6 +157,12 @@ func handleNoWellKnown(ctx context.Context, serverName spec.ServerName) (results
 func lookupSRV(ctx context.Context, serverName spec.ServerName) ([]*net.SRV, error) {
 	// Check matrix-fed service first, as of Matrix 1.8
 	_, records, err := net.DefaultResolver.LookupSRV(ctx, "matrix-fed", "tcp", string(serverName))
+	if len(records) > 0 {
+		// The resolver filters out records whose target is malformed and
+		// reports them with an error next to the valid records: those are
+		// the answer.
+		return records, nil
+	}
 	if err != nil {
 		if dnserr, ok := err.(*net.DNSError); ok {
 			if !dnserr.IsNotFound {
@@ -172,5 +178,8 @@ func lookupSRV(ctx context.Context, serverName spec.ServerName) ([]*net.SRV, err
 
 	// we didn't get a hit on matrix-fed, so try deprecated matrix service
 	_, records, err = net.DefaultResolver.LookupSRV(ctx, "matrix", "tcp", string(serverName))
+	if len(records) > 0 {
+		return records, nil
+	}
 	return records, err // we don't need to process this here
 }
